@@ -619,7 +619,7 @@ def stub_cases(rng, thorough=False):
         add(fam, "ifm/ofm dtype differ", F.pool, kind, odtype="int16")
         add(fam, "no ksize attr", F.pool, kind, with_ksize=False, k=(9, 9), padding="SAME")
     # ---- fully connected -----------------------------------------------------------------------------------
-    for ifm, ic in (((1, 16), 16), ((4, 16), 16), ((2, 2, 16), 16), ((16,), 16), ((1, 15), 16), ((1, 1, 1, 16), 16), ((3, 5), 16)):
+    for ifm, ic in (((1, 16), 16), ((4, 16), 16), ((2, 2, 16), 16), ((16,), 16), ((1, 15), 16), ((1, 1, 1, 16), 16), ((3, 5), 16), ((2, 1, 1, 16), 16), ((2, 2, 2, 16), 16)):
         add("fc", f"ifm={ifm},ic={ic}", F.fc, ifm=ifm, ic=ic)
     for kn, ifm, ofm in ((True, (2, 2, 16), (2, 2, 8)), (True, (2, 2, 16), (4, 8)), (False, (2, 2, 16), (4, 8))):
         add("fc", f"keep_num_dims={kn},ofm={ofm}", F.fc, ifm=ifm, ofm=ofm, keep_num_dims=kn)
@@ -825,7 +825,7 @@ def stub_cases(rng, thorough=False):
         add("unsupported", kind, F.unary, kind)
 
     # ---- random fill: joint perturbations ------------------------------------------------------------------------
-    nrand = 6000 if thorough else 800
+    nrand = 12000 if thorough else 800
     for i in range(nrand):
         r = rng.random()
         ch = lambda xs: rng.choice(xs)  # noqa: E731
